@@ -1845,6 +1845,22 @@ class C04(Prop):
                 h.ops.insert(rng.randint(1, len(h.ops)), "0 get")
             h.meta["feats"] = sorted(set(h.meta["feats"]) | {"rejected-call"})
             hs.append(h)
+        # a REJECTED ratio change (absolute or relative, stepped or ramped, beyond the upper or the lower bound) changes
+        # nothing: the advertised counts read after it obey the bounds and buffers of the advertised sizes are accepted --
+        # every asynchronous type x {above, below} x {step, ramp}, absolute and relative alternating (stored change C04j:
+        # the target ratio written before the range test)
+        for kind in gen.ASYNC:
+            for j in range(4):
+                cfg = gen.gen_cfg(rng, kinds=[kind], max_chunk=600, probe=rng.random() < 0.5)
+                f = cfg.maxrel * rng.choice([1.5, 4.0, 64.0])
+                if j % 2:
+                    f = 1 / f
+                ramp = j // 2
+                bad = f"0 rel {hx(f)} {ramp}" if rng.random() < 0.5 else f"0 ratio {hx(cfg.ratio * f)} {ramp}"
+                ops = [cfg.new(0), "0 get", "0 proc - n m i", bad, "0 get", "0 proc - n m i", "0 get", "0 proc - n m i",
+                       bad, "0 get dyn", "0 proc - n m i"]
+                hs.append(History(ops, {"cfg": cfg.line, "kind": kind, "ty": cfg.ty,
+                                        "feats": ["rejected-setter", "ratio-step"], "all_valid": True}))
         # the max getters are promises for the whole life: go to the low end of the permitted range, read them, go to the high
         # end (stepped or ramped), read next; failures of the fixed-input types on such schedules are the findings D3/D4
         for i in range(max(8, self.n // 5)):
